@@ -1010,6 +1010,37 @@ class C08(Oracle):
                 require(ctx.post.render == src.render, 'copy_renders_identically', want=src.render, got=ctx.post.render)
                 if kind_of(ctx.result) == kind_of(recv):
                     require(ctx.result == recv and recv == ctx.result, 'copy_compares_equal', src=src.to_json())
+        # a settings list stays the caller's: changing it after the call changes no value
+        lists = []
+
+        def walk(o):
+            if isinstance(o, list):
+                lists.append(o)
+            if isinstance(o, (list, tuple)):
+                for x in o:
+                    walk(x)
+        for obj, _ in ctx.built:
+            walk(obj)
+        if lists and ctx.exc is None and not ctx.timeout:
+            for lst in lists:
+                lst.append('[9')
+                lst.reverse()
+                del lst[1:]
+            w.count('probe:settings_list_changed_after_call')
+            vals = list(enumerate(w.vals))
+            if isinstance(ctx.result, (AnsiString, AnsiStr)) and not any(v is ctx.result for _, v in vals):
+                vals.append((None, ctx.result))
+            for i, v in vals:
+                was = ctx.post_all[i] if i is not None else ctx.post
+                if was is None or _is_plain(v) or isinstance(was, list):
+                    continue
+                try:
+                    now = observe(v)
+                except Exception as e:
+                    raise Fail('value_unobservable_after_settings_list_changed', slot=i, op=ctx.op,
+                               exc='%s: %s' % (type(e).__name__, e))
+                require(now.key() == was.key(), 'value_changed_with_the_callers_settings_list', slot=i, op=ctx.op,
+                        before=was.to_json(), after=now.to_json())
 
     def nontrivial(self, ctx):
         if ctx.exc is not None or not ctx.ip or ctx.recv_slot is None:
